@@ -122,6 +122,19 @@ CLAIMED = {
          "main theorem: a handler's own Content-Length is truthful; trusted: Coq kernel, extraction, lib/srv.py, python strict parser",
     technique="Coq proof over executable model + differential correspondence (extracted OCaml vs real lighttpd over loopback, fault-injected) + strict RFC 9112 parser monitor",
     design="5/C04"),
+ "C18": dict(
+    text="Coq theorems over an executable specification of the RFC 4918 tree semantics (PUT, DELETE, MKCOL, COPY with Overwrite/Depth, MOVE) and the "
+         "PUT staging protocol (temporary file in the same directory, appends, rename): refused operations change nothing, MOVE = COPY + removal of the "
+         "source subtree, DELETE removes exactly the subtree, and killing the server after any number of filesystem steps of a PUT leaves the target "
+         "as before or with exactly the complete new content, a completed PUT leaves no temporary; tied to mod_webdav.c by differential correspondence "
+         "against the real lighttpd: after every request of state-aware random and trap sequences (Destination spelled with dot segments, "
+         "percent-encoding, absolute URI; onto itself; into its own subtree; repeated COPY over hard links) the directory on disk must equal the "
+         "specification's tree and the status class must match; PUT atomicity under client abort and SIGKILL with a concurrent reader",
+    note="PARTIAL: PROPFIND/PROPPATCH/LOCK, If-* preconditions, partial PUT and write errors are outside the specification; the kill points of the real "
+         "PUT are sampled (random byte), not enumerated per system call; 207 Multi-Status counts as an error report; trusted: Coq kernel, extraction, "
+         "lib/srv.py, python directory walker",
+    technique="Coq proof over executable specification + differential correspondence (extracted OCaml vs real lighttpd/mod_webdav on a scratch directory) + kill/abort trials",
+    design="5/C18"),
  "C19": dict(
     text="Coq theorems over an executable model of mod_deflate's decisions and cache (Accept-Encoding scanning and choice among allowed encodings, "
          "eligibility tests, ETag rewrite and revalidation, cache lookup / compress-to-temporary / publish-by-rename under a fault script): the coding "
